@@ -20,6 +20,7 @@ package opshell
 //@ func Shell.writePlain(s, line) (err)
 //@   locals s line err
 //@   props C19 C03
+//@   calledonlyby Shell.handleOutput
 //@   ghost sil0 bool = false
 //@   ghost nWrite int = 0
 //@   ghost nReset int = 0
